@@ -209,8 +209,8 @@ func RandomHistory(w *World, rng *rand.Rand, o HistOpts) {
 			if rng.Intn(6) == 0 {
 				si = vi
 			}
-			if !appendJudgeable(v, w.Views[si]) {
-				continue
+			if !appendJudgeable(v, w.Views[si]) || v.Len()+w.Views[si].Len() > 2048 {
+				continue // (repeated self-appends double the length; keep the logged contents bounded)
 			}
 			w.Do(Op{K: "Append", A: []int{vi, si}})
 		case "Write":
